@@ -299,6 +299,48 @@ class World(BaseWorld):
         self.store(op["dst"], got, gm, s["lineage"])
         return "value"
 
+    def op_subs(self, op):
+        """substitute the symbol phi in box data; the result is a diagram like any other and
+        is normalised, interchanged ... afterwards"""
+        s = self.slots.get(op["src"])
+        if s is None:
+            return "skipped"
+        import sympy
+        try:
+            got = s["real"].subs(sympy.Symbol("phi"), op["value"])
+        except Exception as err:
+            self.note("subs_raised_" + type(err).__name__)
+            return "raised"
+        B.require_well_typed(got, "%s.ill-typed" % self.prop, "subs result")
+        self.counters["subs_lineages"] += 1
+        self.store(op["dst"], got, M.model_of(got), "%s#subs%d" % (op["dst"], self.counters["subs_lineages"]))
+        self.note("subs_done")
+        return "ok"
+
+    def op_normal_form_custom(self, op):
+        """normal_form with an explicitly given normaliser (the interchanger-only one): a sound
+        rewrite of the input; what it leaves on the diagram must not change later answers"""
+        s = self.slots.get(op["src"])
+        if s is None:
+            return "skipped"
+        from discopy import monoidal
+        real, model = s["real"], s["model"]
+        try:
+            with LineTracer(lib_prefix(), "budget", NF_MIN_BUDGET * 10):
+                nf = real.normal_form(normalizer=monoidal.Diagram.normalize, left=op["left"])
+        except (NotImplementedError, Budget):
+            self.note("custom_normalizer_refused")
+            return "refused"
+        except Exception as err:
+            raise self.vio("exception", "normal_form(normalizer=monoidal.Diagram.normalize) raised %s: %s" % (
+                type(err).__name__, str(err)[:150]))
+        nm = self.check_value(nf, model, "interchanger-only normal form")
+        if not M.same_boxes(model, nm):
+            raise self.vio("boxes", "interchanger-only normal form has other boxes than its input")
+        self.denot_equal(model, nm, op.get("m2seed", 0), "interchanger-only normal form")
+        self.note("custom_normalizer_used")
+        return "value"
+
     def op_scribble(self, op):
         s = self.slots.get(op["src"])
         if s is None:
@@ -881,6 +923,9 @@ class Driver:
             if fault.random() < cfg["p_interrupt"]:
                 op["interrupt_at"] = self.interrupt_at(5000)
             return op
+        if r < 0.83:
+            return {"op": "subs", "src": src, "dst": src if sched.random() < 0.5 else self.fresh_slot(),
+                    "value": sched.choice([0, 1, 2])}
         if r < 0.86 and len(names) >= 2:
             return {"op": "canon", "slots": names[:6], "left": sched.random() < 0.5}
         if r < 0.93:
@@ -913,6 +958,9 @@ class Driver:
             mv = self.legal_move(world, src)
             if mv:
                 return mv
+        if r < 0.70:
+            return {"op": "normal_form_custom", "src": src, "left": sched.random() < 0.5,
+                    "m2seed": self.m2seed()}
         if r < 0.80 and len(live) < 3:
             return {"op": "task_start", "task": self.new_task(), "src": src, "kind": "normalize",
                     "left": sched.random() < 0.5, "m2seed": self.m2seed()}
